@@ -434,6 +434,36 @@ pub fn eval_mux(c: &MuxCase) -> Outcome {
         let _ = std::fs::write(&opath, vec![0xeeu8; 300_000]);
         o.class("output_path_holds_an_older_longer_file");
     }
+    // one valid case in nine writes to an output that exists and is not a regular file: /dev/null (exit status and counts are
+    // judged) or a named pipe with a reader (the bytes that arrive must be the library's file)
+    let mut fifo_rx: Option<std::sync::mpsc::Receiver<Vec<u8>>> = None;
+    let mut special_output = "";
+    if c.invalid == 0 && c.frame_size % 9 == 5 {
+        if c.hex_style & 1 == 0 && std::path::Path::new("/dev/null").exists() {
+            if let Some(i) = args.iter().position(|a| a == "--output") {
+                args[i + 1] = "/dev/null".into();
+                special_output = "/dev/null";
+            }
+        } else {
+            let fifo = dir.join("out.fifo");
+            let made = Command::new("mkfifo").arg(&fifo).status().map(|s| s.success()).unwrap_or(false);
+            if made {
+                let (tx, rx) = std::sync::mpsc::channel();
+                let path = fifo.clone();
+                std::thread::spawn(move || {
+                    let _ = tx.send(std::fs::read(&path).unwrap_or_default());
+                });
+                if let Some(i) = args.iter().position(|a| a == "--output") {
+                    args[i + 1] = fifo.to_string_lossy().to_string();
+                    special_output = "named pipe";
+                    fifo_rx = Some(rx);
+                }
+            }
+        }
+        if !special_output.is_empty() {
+            o.class(&format!("output_to:{}", special_output));
+        }
+    }
     // a fifth of the valid cases read the video input from a pipe (/dev/stdin): a readable input that can be read only once
     let piped = c.invalid == 0 && c.frame_size % 5 == 3 && std::path::Path::new("/dev/stdin").exists();
     if piped {
@@ -472,7 +502,14 @@ pub fn eval_mux(c: &MuxCase) -> Outcome {
                         format!("valid options {:?} exit {:?}: {}", &args[..args.len().min(30)], p.code, clip(&p.stderr, 300)),
                     );
                 } else {
-                    match std::fs::read(&opath) {
+                    let produced: std::io::Result<Vec<u8>> = if special_output == "/dev/null" {
+                        Ok(want.clone()) // nothing to read back: exit status and counts are what is judged
+                    } else if let Some(rx) = &fifo_rx {
+                        rx.recv_timeout(Duration::from_secs(10)).map_err(|_| std::io::Error::new(std::io::ErrorKind::TimedOut, "nothing arrived on the named pipe"))
+                    } else {
+                        std::fs::read(&opath)
+                    };
+                    match produced {
                         Ok(got) => {
                             if got != want {
                                 let pos = got.iter().zip(want.iter()).position(|(a, b)| a != b).unwrap_or(got.len().min(want.len()));
@@ -540,7 +577,15 @@ fn mux_strategy(invalid: bool) -> BoxedStrategy<MuxCase> {
         (0u8..4, 0u8..8, prop::bool::weighted(0.85)),
         (320u32..=4096, 240u32..=2160, prop_oneof![3 => Just(30000u32), 1 => Just(29970u32), 2 => 1u32..=120_000]),
         (prop_oneof![2 => Just(0u8), 3 => 1u8..8], 0u8..8, prop::bool::weighted(0.8), prop_oneof![3 => Just(48000u32), 1 => Just(44100u32), 2 => 1u32..=192_000], 1u8..=8),
-        proptest::option::weighted(0.4, prop_oneof![2 => "[a-zA-Z0-9 ]{0,20}", 1 => "[^\\x00-]{0,12}".prop_filter("no leading dash", |s: &String| !s.starts_with('-'))]),
+        proptest::option::weighted(
+            0.4,
+            prop_oneof![
+                4 => "[a-zA-Z0-9 ]{0,20}",
+                2 => "[^\\x00-]{0,12}".prop_filter("no leading dash", |s: &String| !s.starts_with('-')),
+                // values a shell-minded wrapper might "clean up": surrounding quotes, surrounding blanks, an equals sign, a trailing backslash
+                1 => proptest::sample::select(vec!["\"Heroes\"", "'single'", "\"\"", "''", " padded ", "a=b", "back\\", "\"unbalanced", "$HOME", "%s%n"]).prop_map(|s| s.to_string()),
+            ],
+        ),
         proptest::option::weighted(0.4, prop_oneof![3 => "[a-z]{3}", 1 => "[a-zA-Z]{1,5}"]),
         (any::<bool>(), any::<bool>(), any::<bool>()),
         any::<u8>(),
